@@ -7608,7 +7608,8 @@ TraverseSchema::attWildCardIntersection(SchemaAttDef* const resultWildCard,
     if (typeR == XMLAttDef::Any_Any ||
         typeC == XMLAttDef::AttTypes_Unknown) {
 
-        resultWildCard->resetNamespaceList();
+        // the other wildcard is the value: take its namespace list too
+        resultWildCard->setNamespaceList(compareWildCard->getNamespaceList());
         copyWildCardData(compareWildCard, resultWildCard);
         return;
     }
